@@ -22,9 +22,9 @@ NOT_DECIDED = ("the arithmetic of hij2mjd/mjd2hij/g2mjd/mjd2g: bijection and day
 TRUSTED = ["clang 14 parser/CFG builder", "echse-facts extractor", "python rule engines in /verif/sa"]
 LEVEL_TEXT = ("Static verdict on necessary structural clauses of C15: the four scale dispatch switches are exhaustive and agree per scale, "
               "out-of-coverage sentinels are tested before use, month-start tables increase strictly. The conversion arithmetic (bijection, "
-              "consecutive days, month lengths) is not decided.")
+              "consecutive days, month lengths) is not decided. Also: the conversions carry no state between calls (a memo must be keyed on table, year and month alike).")
 LEVEL_NOTE = "Trusted: clang 14 front end/CFG, extractor, rule engines."
-TECHNIQUE = "static analysis: per-enumerator path-sensitive walk of the dispatch switches with sibling agreement, sentinel-test dominance, constant-table monotonicity"
+TECHNIQUE = "static analysis: per-enumerator path-sensitive walk of the dispatch switches with sibling agreement, sentinel-test dominance, constant-table monotonicity; carried-state / memo-key analysis"
 
 FAMILY = {"__ndim_greg": "greg", "__wday_greg": "greg", "g2mjd": "greg", "mjd2g": "greg",
           "__ndim_hij": "hij", "__wday_hij": "hij", "hij2mjd": "hij", "mjd2hij": "hij",
